@@ -135,6 +135,17 @@ fn run_case(out: &mut Out, case: &Value) {
         } else {
             http_serve::streaming_body(&req)
         };
+        // builder calls in the order given by the case: earlier with_gzip_level calls must not
+        // leak into the result; `level` is the last one
+        let mut b = b;
+        if let Some(ls) = case.get("levels").and_then(|l| l.as_array()) {
+            for (i, l) in ls.iter().enumerate() {
+                if i == 1 {
+                    b = b.with_chunk_size(cap);
+                }
+                b = b.with_gzip_level(l.as_u64().unwrap_or(6) as u32);
+            }
+        }
         b.with_chunk_size(cap).with_gzip_level(level).build::<Bytes, BoxError>()
     });
     out.emit(json!({"ev": "reset", "case": case["id"], "cap": cap, "abs": case.get("abs").cloned().unwrap_or(json!({"k": "absent"})),
